@@ -19,17 +19,20 @@
    happens at the lexical location that was validated.  Inv is preserved by the store. *)
 From Oras Require Import Base.Prelude Model.FileConfine Proofs.FileConfine.
 
-(* every sequence of pushes (named blobs and archives to unpack; any titles, any entries
+(* Partial: Inv excludes a working directory pre-populated with hard links to files outside
+   (known finding shared-inode-*, C11_shared_inode_refuted below) and requires the working
+   directory to exist and to be reached through real directories.
+   Every sequence of pushes (named blobs and archives to unpack; any titles, any entries
    of any type, any link targets, any process cwd) leaves everything outside the working
    directory untouched and keeps the invariant *)
-Theorem C11_confined :
+Theorem C11_confined_partial :
   forall (wd : path) (pres : bool) (cwd : path) (os : list pushop) (s s' : store) (oks : list bool),
     Inv wd (st_fs s) ->
     pushes cfg_fixed pres wd cwd s os = (s', oks) ->
     Inv wd (st_fs s') /\
     (forall p, inside wd p = false -> view_at (st_fs s') p = view_at (st_fs s) p).
 Proof. exact pushes_keeps. Qed.
-Print Assumptions C11_confined.
+Print Assumptions C11_confined_partial.
 
 (* the entry of the working directory in its parent is not deleted or replaced either *)
 Theorem C11_working_directory_kept :
@@ -162,3 +165,44 @@ Example C11_example_times_set :
   view_at (fst (run0 cfg_fixed os_times)) [b "r"; b "w"; b "t"; b "a"] = VDir 493%N 5%N /\
   view_at (fst (run0 cfg_fixed os_times)) [b "r"; b "w"; b "t"; b "a"; b "f"] = VFile (enc 7 420) 6%N.
 Proof. exact times_ok. Qed.
+
+(* audit F5: the other ways a name "would resolve outside" are rejected too *)
+
+(* an entry name that is not below the unpack directory (even when inside the working directory) *)
+Theorem C11_entry_outside_unpack_directory_rejected :
+  forall (g : cfg) (pres : bool) (wd cwd : path) (title : str) (f : fsys) (e : entry),
+    inside (lex_loc wd title) (lex_loc wd (entry_name e)) = false ->
+    forall t, extract_entry g pres cwd (lex_loc wd title) title f e t = None.
+Proof. exact entry_outside_unpack_dir_rejected. Qed.
+Print Assumptions C11_entry_outside_unpack_directory_rejected.
+
+(* a symbolic or hard link whose target, relative to the link's directory, is lexically not below
+   the unpack directory *)
+Theorem C11_link_target_outside_rejected :
+  forall (g : cfg) (pres : bool) (cwd dp : path) (dirName : str) (f : fsys) (nm tgt : str) (rel : list name) (t : N),
+    entry_rel dp dirName nm = Some rel ->
+    inside dp (link_abs_path (dp ++ rel) tgt) = false ->
+    extract_entry g pres cwd dp dirName f (ESym nm tgt) t = None /\
+    extract_entry g pres cwd dp dirName f (EHard nm tgt) t = None.
+Proof. exact link_target_outside_rejected. Qed.
+Print Assumptions C11_link_target_outside_rejected.
+
+(* a name with a symbolic link among its parents below the unpack directory (for every entry type) *)
+Theorem C11_entry_through_link_rejected :
+  forall (g : cfg) (pres : bool) (cwd dp : path) (dirName : str) (f : fsys) (e : entry) (t : N)
+         (q : list name) (c : name) (r : list name) (d : str) (a : bool) (cs : list comp),
+    RealD f [] dp -> RealD f dp q ->
+    entry_rel dp dirName (entry_name e) = Some (q ++ c :: r) -> r <> [] ->
+    lookup f (dp ++ q ++ [c]) = Some (NSym d a cs) ->
+    extract_entry g pres cwd dp dirName f e t = None.
+Proof. exact entry_through_link_rejected. Qed.
+Print Assumptions C11_entry_through_link_rejected.
+
+(* audit F3: without "no inode shared with the outside" the statement fails on the repaired store *)
+Theorem C11_shared_inode_refuted :
+  inside wd0 [b "victim"] = false /\
+  snd (pushes cfg_fixed false wd0 cwd0 (mkStore fs2 []) [PBlob (b "old") 7%N]) = [true] /\
+  view_at (st_fs (fst (pushes cfg_fixed false wd0 cwd0 (mkStore fs2 []) [PBlob (b "old") 7%N]))) [b "victim"]
+  <> view_at fs2 [b "victim"].
+Proof. exact refuted_shared_inode. Qed.
+Print Assumptions C11_shared_inode_refuted.
